@@ -47,7 +47,7 @@ func Canon(t reflect.Type, data []byte) ([]byte, error) {
 	case t.Kind() == reflect.Map:
 		err = canonValue(t, WTSlice, out)
 	case t.Kind() == reflect.Slice:
-		if isScalarKind(t.Elem()) || t.Elem().Kind() == reflect.Uint8 {
+		if isPackedElem(t.Elem()) || t.Elem().Kind() == reflect.Uint8 {
 			return out, nil
 		}
 		err = canonValue(t, WTSlice, out)
@@ -208,7 +208,7 @@ func canonValue(t reflect.Type, wt int, d []byte) error {
 		if et.Kind() == reflect.Interface {
 			return canonJSONArr(d)
 		}
-		if et.Kind() == reflect.Uint8 || isScalarKind(et) {
+		if et.Kind() == reflect.Uint8 || isPackedElem(et) {
 			return nil
 		}
 		if wt == WTLength {
